@@ -211,7 +211,7 @@ fn entry_points<'a>(conv: &'a Beatmap, dattrs: &DifficultyAttributes, pattrs: &P
 
 fn main() {
     let ctx = Ctx::from_env("C04");
-    ctx.rule("case = (mode configuration, grammar map); per case: every Difficulty of the menu (5-10 settings x passed_objects in {unset,0,1,[N,]N+2}) x every score specification of the menu x every entry point (generic Performance::new/from with &map, map, DifficultyAttributes, PerformanceAttributes, mode attributes; attrs.performance(); mode-specific builders new/from/try_new) with the same Difficulty supplied again; for converts additionally the calculator of the *source* map (Performance and OsuPerformance), fully configured and only then switched with try_mode / mode_or_ignore; oracle = identical PerformanceAttributes, embedded difficulty attributes == one-shot difficulty; results of attribute-based runs are fed back in a second generation; non-trivial = reference pp > 0");
+    ctx.rule("case = (mode configuration, grammar map); per case: every Difficulty of the menu (5-10 settings x passed_objects in {unset,0,1,[N,]N+2}) x every score specification of the menu x every entry point (generic Performance::new/from with &map, map, DifficultyAttributes, PerformanceAttributes, mode attributes; attrs.performance(); mode-specific builders new/from/try_new) with the same Difficulty supplied again; for converts additionally the calculator of the *source* map (Performance and OsuPerformance, borrowing and owning the map), fully configured and only then switched with try_mode / mode_or_ignore; oracle = identical PerformanceAttributes, embedded difficulty attributes == one-shot difficulty; results of attribute-based runs are fed back in a second generation; non-trivial = reference pp > 0");
     ctx.assume("the converted map (Beatmap::convert) is 'the map' for converts; conversion consistency itself is C07's business");
 
     // quick: N <= 3, far positions. thorough: N <= 3 with stacked and far positions plus N <= 4 with far positions, the rich
@@ -319,8 +319,12 @@ fn main() {
                         let via_try = sc.apply(Performance::new(&map).difficulty(d.clone())).try_mode(mode).ok().map(Performance::calculate);
                         let via_ignore = sc.apply(Performance::new(&map).difficulty(d.clone())).mode_or_ignore(mode).calculate();
                         let via_osu = sc.apply(Performance::Osu(OsuPerformance::new(&map)).difficulty(d.clone())).try_mode(mode).ok().map(Performance::calculate);
-                        l.checked(3);
-                        for (ename, got) in [("configured, then try_mode", via_try), ("configured, then mode_or_ignore", Some(via_ignore)), ("OsuPerformance configured, then try_mode", via_osu)] {
+                        // the same with calculators that own their map (an owned map is converted in place)
+                        let own_try = sc.apply(Performance::new(map.clone()).difficulty(d.clone())).try_mode(mode).ok().map(Performance::calculate);
+                        let own_ignore = sc.apply(Performance::new(map.clone()).difficulty(d.clone())).mode_or_ignore(mode).calculate();
+                        let own_osu = sc.apply(Performance::Osu(OsuPerformance::new(map.clone())).difficulty(d.clone())).try_mode(mode).ok().map(Performance::calculate);
+                        l.checked(6);
+                        for (ename, got) in [("configured, then try_mode", via_try), ("configured, then mode_or_ignore", Some(via_ignore)), ("OsuPerformance configured, then try_mode", via_osu), ("owned map, configured, then try_mode", own_try), ("owned map, configured, then mode_or_ignore", Some(own_ignore)), ("OsuPerformance owning the map, configured, then try_mode", own_osu)] {
                             if !got.as_ref().is_some_and(|g| same(g, &reference)) {
                                 l.violation("configured_then_switched", || {
                                     format!(
